@@ -120,6 +120,21 @@ Definition acyclic_without_guards (g : graph) (guards : list node) : bool := acy
 Definition longest_guard_free_path_cost (g : graph) (guards : list node) (fs : node -> Z) : Z :=
   max_wheight (core g guards []) fs.
 
+(* ---- reachability (for "this function is on no guard-free cycle") ---- *)
+Definition add_new (l acc : list node) : list node :=
+  fold_right (fun m a => if mem m a then a else m :: a) acc l.
+Fixpoint reach_iter (fuel : nat) (g : graph) (S : list node) : list node :=
+  match fuel with O => S | S f => reach_iter f g (add_new (flat_map (succs g) S) S) end.
+Definition succ_closed (g : graph) (S : list node) : bool :=
+  forallb (fun n => forallb (fun m => mem m S) (succs g n)) S.
+(* everything reachable in at least one step from a (when the fuel suffices, which
+   [succ_closed] then confirms) *)
+Definition reach_from (g : graph) (a : node) : list node := reach_iter (length g) g (succs g a).
+(* a is on no cycle of g: decided by computing the set reachable from its callees *)
+Definition off_cycle (g : graph) (a : node) : bool :=
+  let R := reach_from g a in
+  succ_closed g R && forallb (fun m => mem m R) (succs g a) && negb (mem a R).
+
 (* ---- cycles ---- *)
 Definition cycle_b (g : graph) (c : list node) : bool :=
   match c with [] => false | a :: _ => walk g (c ++ [a]) end.
@@ -146,6 +161,7 @@ Definition descent_edges : list (node * node) := structural_edges ++ data_edges.
 Definition runtime_core : graph := core runtime_graph guard_fns descent_edges.
 Definition runtime_L : Z := max_wheight runtime_core unit_cost.
 
+Definition runtime_noguard : graph := remove_nodes runtime_graph guard_fns.
 Definition parser_graph : graph := restrict call_graph grp_parser.
 Definition resolver_graph : graph := restrict call_graph grp_resolver.
 Definition cfg_graph : graph := restrict call_graph grp_cfg.
